@@ -28,7 +28,36 @@ type c10unit struct {
 	hash  string
 	// reference results by writer failure point (-1 = healthy writer)
 	ref     map[int]c10result
-	nilVars bool // executed with a nil VarMap (functions are provided as Set globals)
+	nilVars bool               // executed with a nil VarMap (functions are provided as Set globals)
+	data    func() interface{} // Go data used as '.' instead of p.Data
+	mkset   func() *jet.Set
+	share   *c10unit // executes the parsed template of another unit (same Set) with its own variables
+}
+
+// c10fresh executes u on a Set built and parsed from scratch: the reference is independent of anything earlier
+// executions may have left in the parsed templates of the unit's own Set.
+func c10fresh(u *c10unit, failAfter int) c10result {
+	cp := *u
+	cp.set = u.mkset()
+	t, err, pan := jx.Get(cp.set, u.p.Main)
+	if err != nil || pan != nil {
+		return c10result{err: fmt.Sprint("reference Set does not parse: ", err, pan)}
+	}
+	cp.tmpl = t
+	return c10exec(&cp, failAfter)
+}
+
+type c10embedded struct{ Field string }
+
+var c10mint int
+
+// c10embptr returns a value of a struct type that did not exist before, embedding *c10embedded (nil or set).
+func c10embptr(t reflect.Type, set bool) interface{} {
+	v := reflect.New(t).Elem()
+	if set {
+		v.Field(0).Set(reflect.ValueOf(&c10embedded{Field: "promoted"}))
+	}
+	return v.Interface()
 }
 
 type c10result struct {
@@ -144,6 +173,9 @@ func c10exec(u *c10unit, failAfter int) c10result {
 	if u.p.HasData {
 		data = prog.ToGo(u.p.Data)
 	}
+	if u.data != nil {
+		data = u.data()
+	}
 	w := rec.NewWriter()
 	w.FailAfter = failAfter
 	r := jx.ExecW(u.tmpl, w, vars, data)
@@ -204,17 +236,62 @@ func c10run(c *fw.Ctx, idx int) {
 		c10probeUnit("nilvars-probe", `[{{ isset(leakvar) }}{{ isset(s) }}]`, prog.Value{}, false),
 		c10probeUnit("probe-block", `{{block cb(p="d")}}({{p}}{{yield content}}){{content}}default{{end}}`, prog.Value{}, false),
 	)
-	for _, u := range units {
-		u.extra = c10extra()
-		u.extra["xs"] = []string{"e1", "e2"}
-		u.set = u.p.NewSet(false, jx.NoEscape)
-		if strings.HasPrefix(u.name, "nilvars") {
-			u.nilVars = true
-			u.set.AddGlobalFunc("letg", func(a jet.Arguments) reflect.Value {
-				a.Runtime().LetGlobal(fmt.Sprint(a.Get(0).Interface()), fmt.Sprint(a.Get(1).Interface()))
-				return reflect.ValueOf("")
-			})
+	// process-wide caches keyed by data type: a struct type minted for this case, with a field promoted through an
+	// embedded pointer that is nil in one unit and set in the other
+	c10mint++
+	et := reflect.StructOf([]reflect.StructField{
+		{Name: "C10embedded", Type: reflect.TypeOf(&c10embedded{}), Anonymous: true},
+		{Name: fmt.Sprintf("U%d_%d", idx, c10mint), Type: reflect.TypeOf(0)},
+	})
+	for _, set := range []bool{false, true} {
+		set := set
+		name := map[bool]string{false: "embptr-nil", true: "embptr-set"}[set]
+		u := c10probeUnit(name, `[{{ .Field }}]`, prog.Value{}, false)
+		u.data = func() interface{} { return c10embptr(et, set) }
+		ut := c10probeUnit(name+"-in-try", `{{try}}[{{ .Field }}]{{catch e}}<{{ e }}>{{end}}|{{ isset(.Field) }}`, prog.Value{}, false)
+		ut.data = u.data
+		units = append(units, u, ut)
+	}
+	// one parsed template executed with different variables: an include whose name is computed from a variable
+	incp := &prog.Program{Main: "/probe.jet", Vars: map[string]prog.Value{}, Files: []*prog.File{
+		{Path: "/probe.jet", Body: []prog.Node{&prog.RawFail{Src: `<{{ include "/parts/" + kind }}|{{ include pre + "b.jet" }}|{{ if includeIfExists("/parts/" + kind) }}y{{ else }}n{{ end }}>`}}},
+		{Path: "/parts/a.jet", Body: []prog.Node{&prog.Text{S: "PART-A"}}},
+		{Path: "/parts/b.jet", Body: []prog.Node{&prog.Text{S: "PART-B"}}},
+		{Path: "/alt/b.jet", Body: []prog.Node{&prog.Text{S: "ALT-B"}}},
+	}}
+	var incFirst *c10unit
+	for _, v := range [][2]string{{"a.jet", "/parts/"}, {"b.jet", "/alt/"}, {"missing.jet", "/parts/"}, {"b.jet", "/parts/"}} {
+		u := &c10unit{name: "include-computed-" + strings.TrimSuffix(v[0], ".jet") + "-" + strings.Trim(v[1], "/"), p: incp, share: incFirst}
+		u.extra = map[string]interface{}{"kind": v[0], "pre": v[1]}
+		if incFirst == nil {
+			incFirst = u
 		}
+		units = append(units, u)
+	}
+	for _, u := range units {
+		ex := c10extra()
+		for k, v := range u.extra {
+			ex[k] = v
+		}
+		u.extra = ex
+		u.extra["xs"] = []string{"e1", "e2"}
+		u := u
+		u.nilVars = strings.HasPrefix(u.name, "nilvars")
+		u.mkset = func() *jet.Set {
+			set := u.p.NewSet(false, jx.NoEscape)
+			if u.nilVars {
+				set.AddGlobalFunc("letg", func(a jet.Arguments) reflect.Value {
+					a.Runtime().LetGlobal(fmt.Sprint(a.Get(0).Interface()), fmt.Sprint(a.Get(1).Interface()))
+					return reflect.ValueOf("")
+				})
+			}
+			return set
+		}
+		if u.share != nil {
+			u.set, u.tmpl, u.hash, u.ref = u.share.set, u.share.tmpl, u.share.hash, map[int]c10result{}
+			continue
+		}
+		u.set = u.mkset()
 		t, err, pan := jx.Get(u.set, u.p.Main)
 		if err != nil || pan != nil {
 			c.Begin(idx, map[string]interface{}{"unit": u.name, "files": u.p.Sources(false)})
@@ -257,10 +334,22 @@ func c10run(c *fw.Ctx, idx int) {
 	defer debug.SetGCPercent(old)
 
 	// fresh-state references: every (unit, writer) pair of the history executed right after draining the pools
+	for pass := 0; pass < 2; pass++ {
+		for _, s := range hist {
+			if pass == 0 && !strings.HasPrefix(s.Unit, "embptr-nil") {
+				continue // the units whose outcome a later success could change get their reference first
+			}
+			if _, ok := s.u.ref[s.FailAfter]; !ok {
+				hook.Drain()
+				s.u.ref[s.FailAfter] = c10fresh(s.u, s.FailAfter)
+				c.Eval(1)
+			}
+		}
+	}
 	for _, s := range hist {
 		if _, ok := s.u.ref[s.FailAfter]; !ok {
 			hook.Drain()
-			s.u.ref[s.FailAfter] = c10exec(s.u, s.FailAfter)
+			s.u.ref[s.FailAfter] = c10fresh(s.u, s.FailAfter)
 			c.Eval(1)
 		}
 	}
@@ -332,9 +421,9 @@ func c10finish(c *fw.Ctx) {}
 func init() {
 	fw.Register(&fw.Property{
 		ID:        "C10",
-		Technique: "history monitor with fresh-state reference: every Execute of a history on one locked OS thread (pooled Runtime reused, GC off) must equal the same call executed right after the pools were drained; parsed templates hashed before/after",
-		Rule: "each case is one history of 8-32 Execute calls over a pool of 4-7 generated programs (failures anywhere: in yields with content, ranges, if-let, includes, try) plus 10 fixed templates: executions failing deep inside a block yielded with content below if-let and range (ending in an error, a function error, or a string panic that escapes Execute), try bodies, and probes exposing '.', 'yield content', isset() of names bound earlier, try/catch and block defaults; " +
-			"a fifth of the calls write into a writer that fails after 0-39 bytes; oracle: (bytes written, error text) of every call equals the fresh-state reference of the same (template, writer) pair, obtained after replacing the Runtime and ranger pools (hook VerifDrainPools; fallback two GC cycles); template trees hashed by reflection before and after; " +
+		Technique: "history monitor with fresh-state reference: every Execute of a history on one locked OS thread (pooled Runtime reused, GC off) must equal the same call executed on a freshly built and parsed Set right after the pools were drained; parsed templates hashed before/after",
+		Rule: "each case is one history of 8-32 Execute calls over a pool of 4-7 generated programs (failures anywhere: in yields with content, ranges, if-let, includes, try) plus 16 fixed templates: executions failing deep inside a block yielded with content below if-let and range (ending in an error, a function error, or a string panic that escapes Execute), try bodies, and probes exposing '.', 'yield content', isset() of names bound earlier, try/catch and block defaults, and a field promoted through an embedded pointer (nil in one unit, set in another) of a struct type minted per history, and one parsed template with computed include names executed with four different variable bindings; " +
+			"a fifth of the calls write into a writer that fails after 0-39 bytes; oracle: (bytes written, error text) of every call equals the fresh-state reference of the same (template, variables, writer) triple, obtained on a Set parsed from scratch after replacing the Runtime and ranger pools (hook VerifDrainPools; fallback two GC cycles); template trees hashed by reflection before and after; " +
 			"non-trivial = a failed execution immediately followed by another execution on the reused Runtime; distinct by (failing unit, writer failed, following unit); evidence records how often consecutive executions saw the same *Runtime",
 		Assumptions: []string{"generated programs are deterministic (single-entry maps, fresh channels and VarMaps per execution)", "not run under the race detector (it drops pool items at random)"},
 		NCases:      c10n,
